@@ -209,7 +209,8 @@ pub fn run_isolated(
 /// Screening budget: every backend spends at most 2 budget units per canonical bracket
 /// execution (DESIGN §2.6), so a correct backend finishes well inside 4*steps+64.
 pub fn screen_budget(c: &Canon) -> usize {
-    (4 * c.steps + 64) as usize
+    // capped: the accelerated reference reports astronomically many (virtual) steps for wide values
+    (c.steps.saturating_mul(4).saturating_add(64)).min(1 << 26) as usize
 }
 
 /// Judge a *halting* canonical run against the backend's plain `execute` (screened through
